@@ -701,7 +701,7 @@ func cmdCheck(args []string) {
 				// a recorded finding of this stand-in, identified by the kind of input that fails
 				isKnown := false
 				for _, k := range findings {
-					if !k.Fixed && k.Prop == cfg.ID && k.Func == "bounded."+bn && k.Obligation == c && c != "" && br.Status == "failed" {
+					if !k.Fixed && k.Func == "bounded."+bn && k.Obligation == c && c != "" && br.Status == "failed" {
 						knownLines = append(knownLines, fmt.Sprintf("KNOWN-FINDING: property=%s %s %s -- %s", cfg.ID, k.Func, c, k.What))
 						isKnown = true
 					}
